@@ -215,6 +215,7 @@ type exchClient struct {
 	connect   func() error
 	connected bool
 	hooks     bool
+	dialMode  string // "": the dial function succeeds; "connerr": it returns the connection AND an error; "nilerr": a typed nil connection and an error
 	// responses returned by earlier calls on this client and what they encoded to when they were returned
 	kept     []packet.Response
 	keptThen [][]int
@@ -231,7 +232,16 @@ func newExchClient(kind string, hooks bool, timeoutMs int, serialNil bool) *exch
 	switch kind {
 	case "tcp", "rtu", "tcpgen":
 		conf := modbus.ClientConfig{ReadTimeout: timeout, WriteTimeout: timeout,
-			DialContextFunc: func(ctx context.Context, address string) (net.Conn, error) { return ec.conn, nil }}
+			DialContextFunc: func(ctx context.Context, address string) (net.Conn, error) {
+				switch ec.dialMode {
+				case "connerr":
+					return ec.conn, errors.New("verif: dial failed after the connection object existed")
+				case "nilerr":
+					var none *scriptConn
+					return none, errors.New("verif: dial failed")
+				}
+				return ec.conn, nil
+			}}
 		if hk != nil {
 			conf.Hooks = hk
 		}
@@ -327,7 +337,12 @@ func (ec *exchClient) run(c *exchCase, timeoutMs int) []Ev {
 			}
 			done <- r
 		}()
-		if c.Fault != "notconnected" && !ec.connected {
+		if (c.Fault == "connectfailed" || c.Fault == "connectfailednil") && !ec.connected && ec.kind != "serial" {
+			// a Connect that FAILS (the dial function reports an error): the client stays unconnected
+			ec.dialMode = map[string]string{"connectfailed": "connerr", "connectfailednil": "nilerr"}[c.Fault]
+			_ = ec.connect()
+			ec.dialMode = ""
+		} else if c.Fault != "notconnected" && !ec.connected {
 			if err := ec.connect(); err != nil {
 				panic(err)
 			}
@@ -356,6 +371,30 @@ func (ec *exchClient) run(c *exchCase, timeoutMs int) []Ev {
 			}
 		default:
 			err := r.err
+			// the caller inspects the error: if that blows up (e.g. a nil pointer wrapped in the error interface),
+			// the call has in effect panicked in the caller's hands
+			unusable := ""
+			func() {
+				defer func() {
+					if p := recover(); p != nil {
+						unusable = fmt.Sprint(p)
+					}
+				}()
+				_ = err.Error()
+				var x1 *packet.ErrorResponseTCP
+				var x2 *packet.ErrorResponseRTU
+				if errors.As(err, &x1) {
+					_ = x1.Error()
+				}
+				if errors.As(err, &x2) {
+					_ = x2.Error()
+				}
+			}()
+			if unusable != "" {
+				ret["kind"] = "panic"
+				ret["msg"] = "returned error cannot be inspected: " + unusable
+				break
+			}
 			ret["msg"] = err.Error()
 			var ce *modbus.ClientError
 			if errors.As(err, &ce) {
